@@ -136,6 +136,21 @@ func headerDiff(a, b http.Header, ignore ...string) []string {
 	return d
 }
 
+// seqBodyClient answers the i-th GET with bodies[i] (200) and every POST with 202.
+type seqBodyClient struct {
+	bodies [][]byte
+	gets   int
+}
+
+func (c *seqBodyClient) Do(r *http.Request) (*http.Response, error) {
+	if r.Method != "GET" {
+		return &http.Response{StatusCode: 202, Status: "202", Body: ioutil.NopCloser(bytes.NewReader(nil))}, nil
+	}
+	b := c.bodies[c.gets%len(c.bodies)]
+	c.gets++
+	return &http.Response{StatusCode: 200, Status: "200", Body: ioutil.NopCloser(bytes.NewReader(append([]byte(nil), b...)))}, nil
+}
+
 // C19 — the bundled transport signs every request, finishes every batch, is race-free.
 func C19(tier string) int {
 	res := NewResult("C19", tier, "model_checking")
@@ -279,6 +294,38 @@ func C19(tier string) int {
 					}
 				}
 			}
+		}
+	}
+	// ---- (1c) histories on one transport (and across transports in one process): the bytes an
+	// earlier Dereference returned stay what they were whatever is fetched afterwards ----
+	{
+		bodies := [][]byte{[]byte(`{"id":"https://r1.example/doc/1","type":"Note","content":"first"}`), []byte(`{"id":"https://r1.example/doc/2","type":"Person","name":"a considerably longer second document ........................................"}`),
+			[]byte(`{"x":1}`), []byte(``), []byte(`{"id":"https://r1.example/doc/5","type":"Note","content":"fifth"}`)}
+		for _, shared := range []bool{true, false} {
+			var tp pub.Transport
+			var got [][]byte
+			sc := &seqBodyClient{bodies: bodies}
+			for i := range bodies {
+				if tp == nil || !shared {
+					sg := &recSigner{}
+					tp = pub.NewHttpSigTransport(sc, "app", fixedClock{now}, sg, sg, "k", rsaKey)
+				}
+				r, err := tp.Dereference(context.Background(), ap.U(fmt.Sprintf("https://r1.example/doc/%d", i+1)))
+				if err != nil {
+					res.Violate("history|dereference-failed", fmt.Sprintf("Dereference %d: %v", i+1, err), M{"check": "C19", "part": "history"})
+					continue
+				}
+				got = append(got, r)
+				// (also a delivery in between: it must not disturb held results either)
+				tp.Deliver(context.Background(), []byte(`{"type":"Like"}`), ap.U("https://r2.example/in"))
+				for j := range got {
+					if string(got[j]) != string(bodies[j]) {
+						res.Violate("history|earlier-dereference-result-changed", fmt.Sprintf("after fetch %d the bytes returned by fetch %d read %q, they were %q", i+1, j+1, trunc(string(got[j]), 80), trunc(string(bodies[j]), 80)),
+							M{"check": "C19", "part": "history", "shared_transport": shared})
+					}
+				}
+			}
+			res.Case(fmt.Sprintf("history|dereference-results-held|shared=%v", shared))
 		}
 	}
 	// ---- (2) status classification ----
